@@ -368,6 +368,23 @@ int process_start(pid_t *process,
     int redirect[] = { options.handle.in, options.handle.out,
                        options.handle.err };
 
+    // A handle that is itself one of the standard file descriptors (but not the
+    // one it has to be installed on, e.g. because the parent closed one of its
+    // standard streams) would be overwritten or marked close-on-exec by the
+    // loop below before it is used, so we move it out of the way first.
+    for (int i = 0; i < (int) ARRAY_SIZE(redirect); i++) {
+      if (redirect[i] != i && redirect[i] >= 0 &&
+          redirect[i] < (int) ARRAY_SIZE(redirect)) {
+        r = fcntl(redirect[i], F_DUPFD_CLOEXEC, (int) ARRAY_SIZE(redirect));
+        if (r < 0) {
+          r = -errno;
+          goto child;
+        }
+
+        redirect[i] = r;
+      }
+    }
+
     for (int i = 0; i < (int) ARRAY_SIZE(redirect); i++) {
       // `i` corresponds to the standard stream we need to redirect.
       r = dup2(redirect[i], i);
@@ -383,6 +400,13 @@ int process_start(pid_t *process,
       if (redirect[i] != i) {
         // Make sure the pipe is closed when we call exec.
         r = handle_cloexec(redirect[i], true);
+        if (r < 0) {
+          goto child;
+        }
+      } else {
+        // `dup2` does nothing if both file descriptors are equal so we have to
+        // make sure ourselves the standard stream survives `exec`.
+        r = handle_cloexec(i, false);
         if (r < 0) {
           goto child;
         }
